@@ -93,6 +93,12 @@ func provenNonNil(v ssa.Value, at *ssa.BasicBlock, depth int) bool {
 		return x.Value != nil
 	case *ssa.Call:
 		ci := callInfo(x)
+		// cosmos-sdk types/errors re-exports Wrap/Wrapf as package-level func variables
+		if u, ok := x.Call.Value.(*ssa.UnOp); ok && u.Op == token.MUL {
+			if g, ok := u.X.(*ssa.Global); ok && (g.Name() == "Wrap" || g.Name() == "Wrapf") && g.Pkg != nil && pathHasSuffix(g.Pkg.Pkg.Path(), "types/errors") && len(x.Call.Args) > 0 {
+				return provenNonNil(x.Call.Args[0], at, depth+1)
+			}
+		}
 		switch {
 		case ci.Recv == "" && (pathHasSuffix(ci.PkgPath, "cosmossdk.io/errors") || pathHasSuffix(ci.PkgPath, "github.com/pkg/errors") || pathHasSuffix(ci.PkgPath, "cosmos-sdk/types/errors")) &&
 			(ci.Name == "Wrap" || ci.Name == "Wrapf" || ci.Name == "WithStack" || ci.Name == "WithMessage" || ci.Name == "WithMessagef"):
